@@ -23,7 +23,7 @@ GUARD = "TSKIT_VERIF"
 
 FLAVOURS = {
     "plain": ["-O1", "-g0"],
-    "san": ["-O1", "-g", "-fsanitize=address,undefined", "-fno-sanitize-recover=undefined",
+    "san": ["-O1", "-g", "-fsanitize=address,undefined", "-fno-sanitize-recover=undefined", "-fno-sanitize=nonnull-attribute",
             "-fno-omit-frame-pointer"],
 }
 
